@@ -983,4 +983,17 @@ theorem C09_reachable_creation_unresolved (ops : List (Op ⊕ Forest.COp)) :
   fun r hr path sub hs env' l hl ns =>
     C09_unresolved env' r.erase path sub l hs (C09_reachable_creation_unique ops r hr path sub hs) hl ns
 
+/-- ⟦C09_reachable_creation_inherited_iff⟧ `inherited_prefixes(node)` for every node of every such tree
+    (`C09_reachable_inherited_iff` for these histories). -/
+theorem C09_reachable_creation_inherited_iff (ops : List (Op ⊕ Forest.COp)) :
+    ∀ r ∈ (creationRun ops).roots, ∀ (path : Path) (sub : Tree),
+      r.erase.at? path = some sub → ∀ (env' : Env) (l : List (Nat × Nat)),
+      inheritedPrefixes env' r.erase path = some l → ∀ p ns : Nat,
+      ((p, ns) ∈ l ↔
+        path ≠ [] ∧ scopeSpec r.erase path.dropLast p = some ns ∧
+          ∃ q chain e, sub.ancestorsOrSelf q = some chain ∧ sub.at? q = some e ∧
+            NeedsNs env' (scopeOf (elementFrames chain)) e ns) :=
+  fun r hr path sub hs env' l hl p ns =>
+    C09_inherited_iff env' r.erase path sub l hs (C09_reachable_creation_unique ops r hr path sub hs) hl p ns
+
 end XotModel.Props
